@@ -133,6 +133,32 @@ def expand_setdefault(ops):
     return out
 
 
+def expand_bulk_removals(ops, keys, match_tag):
+    """evict(tag) / expire() / clear() are documented as iterative: they remove rows batch by batch, each batch in one
+    transaction.  A completed (or interrupted) call becomes, for every key of interest, one optional atomic step that
+    removes the key if it matches at that instant (`match_tag(op)` gives the tag a row must carry; None = any row)."""
+    out = []
+    for h in ops:
+        name = h['op'].get('op')
+        if name not in ('evict', 'expire', 'clear'):
+            out.append(h)
+            continue
+        hret = INF if h.get('ret') is None else h['ret']
+        for k in keys:
+            # a key re-created by another client while the removal runs gets a new row further on, which a later batch of
+            # the same call may remove again: one optional step, plus one per overlapping write of that key
+            again = 0
+            for b in ops:
+                if b is h or b['task'] == h['task'] or b['op'].get('k') != k or b['op'].get('op') not in WRITES:
+                    continue
+                bret = INF if b.get('ret') is None else b['ret']
+                if b['inv'] < hret and h['inv'] < bret:
+                    again += 1
+            for _ in range(1 + min(again, 4)):
+                out.append(dict(h, op={'op': 'remove_if_tag', 'k': k, 'tag': match_tag(h['op'])}, anyres=True, tolerate=True))
+    return out
+
+
 def mark_tolerated_misses(ops, lookups=('get', 'getitem', 'read'), miss=None):
     """C05's single tolerated anomaly: a lookup that reported a miss while a
     write/removal of the same key by another client overlapped it."""
